@@ -28,6 +28,21 @@ CHECKS = {
  "C10": (T + "round-trip oracle on conformant IPFIX streams with a per-cell model of the listed lossy re-export classes",
          "As C09 for IPFIX (additional listed classes: variable-length prefix, signed width).",
          "As C09."),
+ "C06": (T + "cache-model monitor: the four public template maps of every parser are compared with a model cache after every call of seeded define/redefine/data/no-op histories; decoded data compared with the abstract stream",
+         "After every call: decoded data must follow the latest definition (ground-truth differential), the library's caches must equal the model (latest complete record per id per protocol per parser), no-op inputs (V5/V7, data only, garbage, truncated template packets, disallowed versions) must leave all four maps identical, other parser instances must be untouched, ids never disappear.",
+         "Caches are public fields, so no source hook is needed; split-invariance of the same histories is decided by C11's monitor."),
+ "C07": (T + "withheld-template histories with cache snapshots and ground-truth differential after the template arrives",
+         "A data set whose template was never sent / sent only for the other protocol / only to another parser instance must not produce records: V9 packet => one error carrying the packet, IPFIX message => reported without that set; caches identical before/after; earlier packets of the buffer still reported; after the template arrives the identical bytes decode to the abstract records.",
+         "What happens to IPFIX sets after the undecodable one is C05's listed finding and is not judged here."),
+ "C11": (T + "metamorphic split monitor: every partition of a packet sequence into calls vs one packet per call (results, caches, common flowsets)",
+         "For sequences of n <= 6 (thorough 8) packets all 2^(n-1) partitions are executed on fresh parsers and must give Debug-identical concatenated results, identical final caches and the same number of common flows as one-packet-per-call delivery.",
+         "Only the last packet of a sequence may decode to an error (a mid-sequence error legitimately stops a chained parse)."),
+ "C12": (T + "allowed-set differential: parser(S) vs parser(all versions) vs parser fed only the allowed prefix",
+         "All 16 subsets of {5,7,9,10} (plus extra numbers) crossed with chained, hostile and mutated buffers and prior histories: results must be the all-allowed results up to the first disallowed version, caches must equal those of a parser that never saw the rest, allowed-but-unknown versions must end in an UnknownVersion error with the unparsed bytes.",
+         "Element boundaries are taken from the accounting monitor over the all-allowed run."),
+ "C14": (T + "truncation monitor: every proper prefix of generated valid packets, alone and after complete packets, fresh and warm caches",
+         "Each cut must give the preceding packets unchanged plus exactly one error whose remaining bytes are the truncated packet; V5/V7/IPFIX cuts must leave the four caches identical.",
+         "V9 cuts on flowset boundaries are excluded as the property states; all cut points for packets up to 400 bytes (2 KiB for every 8th / in the thorough tier), structural boundaries and samples beyond."),
 }
 PENDING = {
  "C06": "check not wired yet (in progress); the technique applies, see DESIGN.md",
